@@ -1763,9 +1763,12 @@ func (self *Node) toGenericArrayUseNode() ([]Node, error) {
 		return []Node{}, nil
 	}
 
-	var s = (*linkedNodes)(self.p)
-	var out = make([]Node, nb)
-	s.ToSlice(out)
+	/* skip the slots of removed elements */
+	var out = make([]Node, 0, nb)
+	it := self.values()
+	for v := it.next(); v != nil; v = it.next() {
+		out = append(out, *v)
+	}
 
 	return out, nil
 }
@@ -1818,9 +1821,12 @@ func (self *Node) toGenericObjectUseNode() (map[string]Node, error) {
 		return map[string]Node{}, nil
 	}
 
-	var s = (*linkedPairs)(self.p)
+	/* skip the slots of removed members */
 	var out = make(map[string]Node, nb)
-	s.ToMap(out)
+	it := self.properties()
+	for v := it.next(); v != nil; v = it.next() {
+		out[v.Key] = v.Value
+	}
 
 	/* all done */
 	return out, nil
